@@ -330,7 +330,14 @@ func init() {
 			if (tier == "quick" && idx%25000 == 777) || (tier == "thorough" && idx%40000 == 777) {
 				return &WCase{Format: "lzma2", Probe: &MarginProbe{Seed: r.Uint64(), Prefix: r.Range(1150000, 1250000)}}
 			}
-			return genL2WCase(r, tier, true)
+			c := genL2WCase(r, tier, true)
+			if isVeryFarCase(tier, idx) {
+				pl, dc := veryFarPayload(r)
+				c.L2.DictCap, c.L2.Matcher, c.L2.BufSize = dc, 0, 4096
+				c.Payload, c.RDict = pl, dc
+				c.Ops = []Op{{K: "w", N: pl.Len()}, {K: "f"}, {K: "c"}}
+			}
+			return c
 		},
 		Run:    runL2Case,
 		Shrink: shrinkWCase,
